@@ -139,15 +139,61 @@ func selOfPattern(p string) int64 {
 }
 
 func (w *world) k8sNode(id int64) *v1.Node {
+	// a node in the oracle set of selector s carries sel<s>=1, a node outside it nsel<s>=1
+	// (the complement label lets NotIn / DoesNotExist selectors denote the same set)
 	lbl := map[string]string{}
 	for s, ns := range w.sel {
+		in := false
 		for _, n := range ns {
 			if n == id {
-				lbl[fmt.Sprintf("sel%d", s)] = "1"
+				in = true
 			}
+		}
+		if in {
+			lbl[fmt.Sprintf("sel%d", s)] = "1"
+		} else {
+			lbl[fmt.Sprintf("nsel%d", s)] = "1"
 		}
 	}
 	return &v1.Node{ObjectMeta: metav1.ObjectMeta{Name: nodeName(id), Labels: lbl}}
+}
+
+// labelSelector builds, for selector id s, a label selector that denotes the oracle set of s.
+// The SHAPE depends on s: matchLabels only, matchExpressions only (In / Exists / NotIn /
+// DoesNotExist) or both — the scheduler must treat every shape as depending on the nodes.
+func labelSelector(s int64) *metav1.LabelSelector {
+	key, nkey := fmt.Sprintf("sel%d", s), fmt.Sprintf("nsel%d", s)
+	switch s % 6 {
+	case 1:
+		return &metav1.LabelSelector{MatchExpressions: []metav1.LabelSelectorRequirement{{Key: key, Operator: metav1.LabelSelectorOpIn, Values: []string{"1"}}}}
+	case 2:
+		return &metav1.LabelSelector{MatchExpressions: []metav1.LabelSelectorRequirement{{Key: key, Operator: metav1.LabelSelectorOpExists}}}
+	case 3:
+		return &metav1.LabelSelector{MatchExpressions: []metav1.LabelSelectorRequirement{{Key: nkey, Operator: metav1.LabelSelectorOpNotIn, Values: []string{"1"}}}}
+	case 4:
+		return &metav1.LabelSelector{MatchExpressions: []metav1.LabelSelectorRequirement{{Key: nkey, Operator: metav1.LabelSelectorOpDoesNotExist}}}
+	case 5:
+		return &metav1.LabelSelector{MatchLabels: map[string]string{key: "1"},
+			MatchExpressions: []metav1.LabelSelectorRequirement{{Key: key, Operator: metav1.LabelSelectorOpExists}}}
+	}
+	return &metav1.LabelSelector{MatchLabels: map[string]string{key: "1"}}
+}
+
+// labelSelectorID recovers the selector id from a selector built by labelSelector
+func labelSelectorID(ls *metav1.LabelSelector) int64 {
+	key := ""
+	for k := range ls.MatchLabels {
+		key = k
+	}
+	if key == "" && len(ls.MatchExpressions) > 0 {
+		key = ls.MatchExpressions[0].Key
+	}
+	key = strings.TrimPrefix(strings.TrimPrefix(key, "n"), "sel")
+	v, err := strconv.ParseInt(key, 10, 64)
+	if err != nil {
+		panic("label selector the harness never builds")
+	}
+	return v
 }
 
 func (w *world) hyperNode(o hobj) *topologyv1alpha1.HyperNode {
@@ -161,7 +207,7 @@ func (w *world) hyperNode(o hobj) *topologyv1alpha1.HyperNode {
 		case 1:
 			ms.Selector.RegexMatch = &topologyv1alpha1.RegexMatch{Pattern: w.pattern(m.a)}
 		case 2:
-			ms.Selector.LabelMatch = &metav1.LabelSelector{MatchLabels: map[string]string{fmt.Sprintf("sel%d", m.a): "1"}}
+			ms.Selector.LabelMatch = labelSelector(m.a)
 		case 3:
 			ms.Type = topologyv1alpha1.MemberTypeHyperNode
 			ms.Selector.ExactMatch = &topologyv1alpha1.ExactMatch{Name: hnName(m.a)}
@@ -185,10 +231,7 @@ func encMembers(hn *topologyv1alpha1.HyperNode) []int64 {
 		case m.Type == topologyv1alpha1.MemberTypeNode && m.Selector.RegexMatch != nil:
 			out = append(out, 1, selOfPattern(m.Selector.RegexMatch.Pattern))
 		case m.Type == topologyv1alpha1.MemberTypeNode && m.Selector.LabelMatch != nil:
-			for k := range m.Selector.LabelMatch.MatchLabels {
-				v, _ := strconv.ParseInt(k[3:], 10, 64)
-				out = append(out, 2, v)
-			}
+			out = append(out, 2, labelSelectorID(m.Selector.LabelMatch))
 		default:
 			panic("member shape the harness never builds")
 		}
@@ -437,10 +480,7 @@ func (s *sut) selStale(n int64, deletion bool) bool {
 			case m.Selector.RegexMatch != nil:
 				hit = hit || inSel(selOfPattern(m.Selector.RegexMatch.Pattern))
 			case m.Selector.LabelMatch != nil:
-				for k := range m.Selector.LabelMatch.MatchLabels {
-					id, _ := strconv.ParseInt(k[3:], 10, 64)
-					hit = hit || inSel(id)
-				}
+				hit = hit || inSel(labelSelectorID(m.Selector.LabelMatch))
 			}
 		}
 		if hit && !leaf {
@@ -797,11 +837,10 @@ func laws(sel int, in, got []int64, law func(lsel int, lin []int64, sig string))
 		// only to the law the finding explains; 111/112 re-check everything D2 does not touch.
 		const d2 = "C14-D2-selector-members-of-non-leaf-hypernode-stale-after-node-event"
 		const d7 = "C14-D7-bad-membership-invisible-under-tier-inversion"
-		const d15 = "C14-D15-object-arriving-under-two-claimers-rebuilds-only-one"
 		pick := func(f flags, order ...string) string {
 			for _, sg := range order {
 				switch {
-				case sg == d2 && f.selStale, sg == d7 && f.tierInversion, sg == d15 && f.arrivesDoublyClaimed:
+				case sg == d2 && f.selStale, sg == d7 && f.tierInversion:
 					return sg
 				}
 			}
@@ -814,9 +853,9 @@ func laws(sel int, in, got []int64, law func(lsel int, lin []int64, sig string))
 		law(102, cat(eo, incr, fresh), pick(both, d2, d7))
 		law(112, cat(eo, incr, fresh), pick(both, d7))
 		law(105, cat(eo, incr), pick(fl, d7))
-		law(106, cat(eo, incr), pick(fl, d7, d15))
+		law(106, cat(eo, incr), pick(fl, d7))
 		law(101, cat(encEnv(w, nodes), eo, fresh), pick(ffl, d2, d7))
-		law(106, cat(eo, fresh), pick(ffl, d7, d15))
+		law(106, cat(eo, fresh), pick(ffl, d7))
 	case 3:
 		traceLaws(law)
 	case 2:
